@@ -17,6 +17,7 @@ import SpsdkVerif.Model.ConfigArea
 import SpsdkVerif.Proofs.ConfigArea
 import SpsdkVerif.Proofs.ConfigAreaCfg
 import SpsdkVerif.Proofs.RegistersCfg
+import SpsdkVerif.Proofs.RegistersGen
 import SpsdkVerif.Properties.C11
 import SpsdkVerif.Generated.RegLayouts
 import SpsdkVerif.Generated.RegDetails
@@ -792,6 +793,53 @@ theorem gen_config_roundtrip (l : Layout) (d : LayoutD) (hld : (l, d) ∈ layout
   simp only [hk3, Bool.false_or] at hfn
   exact area_config_roundtrip l d vals ha hlen wf hn.2 hfn hs (stateOK_init_of_resetsB l d hr) hrest
 
+
+/-! ## alternative-width, byte-reversed registers (ROTKH of the CMPA, RKTH fuse group) -/
+
+section Rotkh
+open SpsdkVerif.Regs
+
+/-- the stored raw value of a byte-reversed value of `n` bytes, exported little endian over `n + d` bytes, is the big-endian
+    byte string of the value, left-justified and zero padded -/
+theorem reversed_field_bytes (n d v : Nat) (hv : v < 256 ^ n) :
+    leEnc (n + d) (leDec (beEnc n v)) = beEnc n v ++ List.replicate d 0 := by
+  have hx : leDec (beEnc n v) < 256 ^ n := leDec_beEnc_lt n v
+  have hpad := beEnc_pad n d (leDec (beEnc n v)) hx
+  have hrev : (beEnc n (leDec (beEnc n v))).reverse = beEnc n v := by
+    have h := beEnc_beDec_reverse (beEnc n v)
+    rw [beEnc_length] at h
+    simp only [leDec]
+    rw [h, List.reverse_reverse]
+  simp only [leEnc]
+  rw [Nat.add_comm, hpad, List.reverse_append, hrev, List.reverse_replicate]
+
+/-- **ROTKH / RKTH placement** (register of 384 bit with the alternative width 256, byte reversed; `gen_alt_width` of C11 ties
+    `altWidth` to the current `Register.get_alt_width`): EVERY value below 2^256 - short ones with leading zero bytes included, down to
+    0 and 1 - selects the 256-bit width, and the 48 exported bytes of the stored raw value are the 32-byte big-endian value followed
+    by 16 zero bytes; a value that needs more than 32 bytes uses the full width. -/
+theorem rotkh_placement (v : Nat) :
+    (v < 2 ^ 256 → altWidth [256] 384 v = 256 ∧ ∃ x, brev 256 v = some x ∧ leEnc 48 x = beEnc 32 v ++ List.replicate 16 0) ∧
+    (2 ^ 256 ≤ v → v < 2 ^ 384 → altWidth [256] 384 v = 384 ∧ ∃ x, brev 384 v = some x ∧ leEnc 48 x = beEnc 48 v) := by
+  constructor
+  · intro hv
+    have e32 : (256 : Nat) ^ 32 = 2 ^ 256 := by decide
+    have h256 : v < 256 ^ 32 := by rw [e32]; exact hv
+    have hfit : byteCnt v ≤ 256 / 8 := (byteCnt_le_iff v 32 (by decide)).2 h256
+    refine ⟨altWidth_cons_fit 256 [] 384 v hfit (by simp), leDec (beEnc 32 v), ?_, ?_⟩
+    · rw [brev_eq 256 v (by decide) hv]
+    · exact reversed_field_bytes 32 16 v h256
+  · intro hlo hhi
+    have e32 : (256 : Nat) ^ 32 = 2 ^ 256 := by decide
+    have h256 : ¬ v < 256 ^ 32 := by rw [e32]; omega
+    have hnf : ¬ byteCnt v ≤ 256 / 8 := fun h => h256 ((byteCnt_le_iff v 32 (by decide)).1 h)
+    have e48 : (256 : Nat) ^ 48 = 2 ^ 384 := by decide
+    have h384 : v < 256 ^ 48 := by rw [e48]; exact hhi
+    refine ⟨by rw [altWidth_cons_nofit 256 [] 384 v hnf, altWidth_nil], leDec (beEnc 48 v), ?_, ?_⟩
+    · rw [brev_eq 384 v (by decide) hhi]
+    · have := reversed_field_bytes 48 0 v h384
+      simpa using this
+
+end Rotkh
 
 /-! ## the database: every (family, revision, area) row uses one of the generated layouts, hence … -/
 
